@@ -5,6 +5,7 @@ import (
 	"encoding/hex"
 	"io"
 	"lunar/engine/utils/environment"
+	"lunar/toolkit-core/verifhook"
 	"os"
 	"path/filepath"
 )
@@ -157,6 +158,9 @@ func (fs *FileSystemOperation) SaveMetricsConfig(content []byte) error {
 }
 
 func (fs *FileSystemOperation) cleanUpFile(filePath string) error {
+	if err := verifhook.Fault("remove", filePath); err != nil {
+		return err
+	}
 	if err := os.Remove(filePath); err != nil && !os.IsNotExist(err) {
 		return err
 	}
@@ -178,6 +182,9 @@ func (fs *FileSystemOperation) cleanUpDirectory(cleanupPath string) error {
 
 func (fs *FileSystemOperation) storeFileOnDisk(filePath string, content []byte) error {
 	_ = fs.cleanUpFile(filePath)
+	if err := verifhook.Fault("store", filePath); err != nil {
+		return err
+	}
 
 	dir := filepath.Dir(filePath)
 	if err := os.MkdirAll(dir, os.ModePerm); err != nil {
@@ -215,6 +222,9 @@ func (fs *FileSystemOperation) createFileSystemBackUp() (*FileSystemBackUp, erro
 }
 
 func (fs *FileSystemOperation) backupFile(filePath string, backup *FileSystemBackUp) error {
+	if err := verifhook.Fault("read", filePath); err != nil {
+		return err
+	}
 	if _, err := os.Stat(filePath); os.IsNotExist(err) {
 		return nil
 	}
